@@ -52,6 +52,19 @@ def h_slot(ctx, slot, n):
     return _rt_obs(ctx, CC.slot_tree(ctx, slot, n))
 
 
+def h_after_rejected(ctx, slot, n):
+    """state left over from a failed encode: the same coder layer is first given a stanza it must refuse (the codec notices only after
+    it has started writing), then a well-formed one: that one round-trips like on a fresh layer"""
+    bad = CC.bad_stanza(ctx.choice("rejected_first", list(CC.BAD_STANZAS)))
+    tree = CC.slot_tree(ctx, slot, n)
+    err, frames, up = CC.layer_after_rejected(ctx, bad, tree)
+    obs = [("the stanza that cannot be encoded is refused", err is not None), ("exactly one frame is written for the next stanza (%d)" % len(frames), len(frames) == 1),
+           ("exactly-one-node-up", len(up) == 1)]
+    if len(up) == 1:
+        obs += CC.tree_obs("rt-after-rejected", tree, up[0])
+    return obs
+
+
 def h_class(ctx, cls, n, where):
     enc, dec, td, N = CC.lib()
     s = CC.classed_string(ctx, "s", n, cls)
@@ -149,6 +162,8 @@ def cases(tier):
         for n in range(1, nmax + 1):
             cs.append(dict(name="slot[%s,n=%d]" % (slot, n), fn=h_slot, args=(slot, n), weight=5 ** n,
                            timeout_s=150 if q else 3000, max_paths=400000))
+    for slot in ("val", "tag", "data"):
+        cs.append(dict(name="after-rejected-stanza[%s,n=1]" % slot, fn=h_after_rejected, args=(slot, 1), weight=20, timeout_s=150 if q else 3000, max_paths=400000))
     lens = (1, 2, 3, 4, 126, 127, 128, 129, 254, 255) if q else tuple(range(1, 256))
     for cls in ("digits", "nibble", "hex", "HEX-only"):
         for n in lens:
